@@ -9,7 +9,11 @@ monitor of stored rows and cosigned replies per 32-byte log id, and validation o
 recorded from concurrent callers.  History of signatures: `offered` (genuine STHs offered so far) and candidates
 whose signature bytes are those of another genuine STH (field `over`: replayed signature, donor offered before or
 not, of the addressed log or the other one); MCWitness HistNext (WitnessHist*.cfg) covers what was offered before
-x what is offered now.
+x what is offered now.  Header of the signature: candidates carry the two header bytes of tree_head_signature (`hdr`: hash
+algorithm x signature algorithm labels) and the form of the signature bytes (`form`: signed / garbage / rawkey / crafted);
+the header family HdrSTHs is refused like any bad signature (ExactHeaderOnly, OtherHeaderRefused, OtherHeaderLikeBadSig,
+named clause NoHashNoSignature); MCWitness HdrNext (WitnessHdr*.cfg) covers what is held x every member of the family for
+an ECDSA log (L1) and an RSA log (L2).
 """
 import json
 import os
@@ -30,6 +34,15 @@ ASSUME = [
     "of a genuine STH (offered to the witness earlier in the history, or never) over another size / root / timestamp; "
     "history cover: two history-building updates of one log (genuine or bad-signature, accepted / refused for the proof / "
     "lost to a commit fault / replayed signature) followed by every probe",
+    "signature headers: hash byte in {none, md5, sha1, sha224, sha256, sha384, sha512, 7, 8, one other unassigned code "
+    "point} x signature algorithm byte in {anonymous, rsa, dsa, ecdsa, 7, 8, one other unassigned code point}; signature "
+    "bytes under a header other than (sha256, the key's algorithm) are: the log's genuine SHA-256 signature, garbage (random "
+    "well-formed / truncated / empty), bytes made with the log's key over the unhashed content (only under hash bytes that "
+    "name no hash function; named clause NoHashNoSignature), and for the ECDSA log (r, s) crafted from the public key alone "
+    "for a verifier that takes the leading 32 bytes of the unhashed content for the digest (content dictated by the pair; "
+    "found by a search of about 2^16 point additions, once per process).  NOT asserted: bytes made with the log's own key "
+    "over another real hash (md5 .. sha512) under the header naming that hash (the code accepts them; no log issues them)",
+    "log L1 has an ECDSA P-256 key, log L2 an RSA-2048 key (both allowed by RFC 6962 2.1.4)",
     "log-id spellings: configured string, unused trailing bits set, CR/LF inserted, padding dropped, URL-safe "
     "alphabet, leading/trailing blank; named clause AliasIsUnknown (only the configured string names a known log)",
 ]
@@ -46,7 +59,7 @@ def run(ctx, replay=None):
         ctx.go_test("c19", run="TestReplay$", env=dict(env, VERIF_BEHAVIOURS=path))
         return
     # 1. exhaustive model check of the sequential specification
-    ctx.tlc("witness", "MCWitness", ctx.pick("WitnessSmall.cfg", "Witness.cfg"))
+    ctx.tlc("witness", "MCWitness", ctx.pick("WitnessSmall.cfg", "Witness.cfg"), timeout=3400)
     # 2. behaviours: transition cover (every reachable single-log state x every request) and random walks
     behs = []
     r = ctx.tlc("witness", "MCWitness", ctx.pick("WitnessCoverSmall.cfg", "WitnessCover.cfg"), workers=1, count=False,
@@ -64,13 +77,27 @@ def run(ctx, replay=None):
     if not histc or not any(b[-1].get("replay") == "seen" for b in histc):
         raise Infra("history cover exported no behaviour ending in a replayed signature of an STH offered before")
     behs += histc
+    # 2c. header cover: nothing held / an honest STH held, then every member of the log's header family (hash byte x
+    # signature algorithm byte x form of the signature bytes x content), for the ECDSA log and the RSA log
+    r = ctx.tlc("witness", "MCWitness", ctx.pick("WitnessHdrSmall.cfg", "WitnessHdr.cfg"), workers=1, count=False,
+                timeout=3000)
+    hdrc = r.records.get("BEH", [])
+    forms = set((b[-1]["log"], b[-1]["cand"].get("form")) for b in hdrc)
+    want = {("L1", "signed"), ("L1", "garbage"), ("L1", "rawkey"), ("L1", "crafted"),
+            ("L2", "signed"), ("L2", "garbage"), ("L2", "rawkey")}
+    if not want <= forms:
+        raise Infra("header cover lacks forms: %s" % sorted(want - forms))
+    behs += hdrc
     r = ctx.tlc("witness", "MCWitness", "WitnessSim.cfg", simulate=ctx.pick(400, 5000), depth=20, count=False)
     sim = r.records.get("BEH", [])
     if not sim:
         raise Infra("simulation exported no behaviours")
     behs += sim
-    ctx.log("behaviours: %d cover + %d history cover + %d simulated (%d steps carry a replayed signature)" % (
-        len(cover), len(histc), len(sim), sum(1 for b in behs for s in b if s.get("replay", "none") != "none")))
+    ctx.log("behaviours: %d cover + %d history cover + %d header cover + %d simulated (%d steps carry a replayed "
+            "signature, %d a member of the header family)" % (
+                len(cover), len(histc), len(hdrc), len(sim),
+                sum(1 for b in behs for s in b if s.get("replay", "none") != "none"),
+                sum(1 for b in behs for s in b if is_hdr(s.get("cand") or {}))))
     path = ctx.write_ndjson("behaviours.ndjson", behs)
     ctx.go_test("c19", run="TestReplay$", env=dict(env, VERIF_BEHAVIOURS=path), timeout=3000)
     # 3. concurrent callers: invoke/return traces validated by WitnessTrace.tla
@@ -80,6 +107,13 @@ def run(ctx, replay=None):
     if not os.path.exists(tr) or os.path.getsize(tr) == 0:
         raise Infra("no trace recorded")
     validate_traces(ctx, tr)
+
+
+def is_hdr(c):
+    if c.get("k") != "sth":
+        return False
+    std = {"hash": "sha256", "alg": "rsa" if c.get("signer") == "L2" else "ecdsa"}
+    return c.get("form", "signed") != "signed" or c.get("hdr", std) != std
 
 
 def validate_traces(ctx, tr, expect_reject=False):
